@@ -3,7 +3,9 @@
 use crate::common::{Args, Report};
 
 pub mod c01;
+pub mod c03;
 pub mod c04;
+pub mod c05;
 pub mod c06;
 pub mod c07;
 pub mod c08;
@@ -19,7 +21,9 @@ pub mod monitors;
 pub fn run(args: &Args, r: &mut Report) -> bool {
     match args.prop.as_str() {
         "C01" => c01::run(args, r),
+        "C03" => c03::run(args, r),
         "C04" => c04::run(args, r),
+        "C05" => c05::run(args, r),
         "C06" => c06::run(args, r),
         "C07" => c07::run(args, r),
         "C08" => c08::run(args, r),
